@@ -109,7 +109,7 @@ META['C03'] = {
 }
 JOBS['C03'] = [
     {'name': 'write_faults', 'harness': 'c03_wr.c', 'units': 'ALL',
-     'defs': {'quick': {'NF': 1, 'NSHAPES': 4}, 'thorough': {'NF': 2, 'NSHAPES': 5}},
+     'defs': {'quick': {'NF': 1, 'NSHAPES': 5}, 'thorough': {'NF': 2, 'NSHAPES': 5}},
      'expect_reach': ['end', 'foreign-guard', 'newer-guard', 'fault', 'shorts-only', 'clean'], 'timeout': {'quick': 280, 'thorough': 1700}},
     {'name': 'two_faults', 'harness': 'c03_wr.c', 'units': 'ALL', 'tiers': ['quick'],
      'defs': {'NF': 2, 'NSHAPES': 4, 'CMDMASK': '0x11', 'SHAPEMASK': '0xa'},
